@@ -189,5 +189,126 @@ theorem hh93_ecapture_law (ρ : Env) :
       v ρ "pi" * v ρ "rG" * v ρ "rG" * Real.sqrt (8 * v ρ "kerg" * v ρ "Tgas" / v ρ "pi" / v ρ "amu" / v ρ "meu") := by
   simp [v, hh93ECaptureTree, sqrtE, call1, evalE, evalArgs, applyFn, numVal_8]
 
+
+/-! ### the remaining laws -/
+
+theorem law_trees_match2 : lawTreesMatch2 = true := by decide +kernel
+theorem surface_trees_match : surfaceTreesMatch = true := by decide +kernel
+
+theorem numVal_4875e3 : numVal ['4', '.', '8', '7', '5', 'e', '3'] = 4875 := by
+  have : parseDec ['4', '.', '8', '7', '5', 'e', '3'] = some (4875, 0) := by decide
+  simp only [numVal, this]; norm_num
+theorem numVal_1p8 : numVal ['1', '.', '8'] = 1.8 := by
+  have : parseDec ['1', '.', '8'] = some (18, -1) := by decide
+  simp only [numVal, this]; norm_num
+
+theorem base_depletion_law (ρ : Env) (a : Lit) (s : SpecInfo) :
+    evalE ρ (baseDepletionTree a s) =
+      litVal ρ a * v ρ "pi" * v ρ "rG" * v ρ "rG" * v ρ "gdens" *
+        Real.sqrt (8 * v ρ "kerg" * v ρ "Tgas" / (v ρ "pi" * v ρ "amu" * ρ.mag s.massId)) := by
+  simp [v, baseDepletionTree, sqrtE, call1, M, evalE, evalArgs, applyFn, numVal_8]
+
+theorem rr07_photon_law (ρ : Env) (s : SpecInfo) :
+    evalE ρ (rr07PhotonTree s) =
+      if v ρ "mantabund" > 1e-30 ∧ v ρ "eb_uvd" ≥ ρ.mag s.ebId then
+        v ρ "opt_uvd" * 4875 * v ρ "gxsec" *
+          (v ρ "zeta" / v ρ "zism" + v ρ "G0" / v ρ "uvcreff" * Real.exp (-1.8 * v ρ "Av")) * ρ.mag s.yieldId / v ρ "mant"
+      else 0 := by
+  unfold rr07PhotonTree
+  rw [rr07_guard_law]
+  have : evalE ρ (rr07PhotonRateTree s) =
+      v ρ "opt_uvd" * 4875 * v ρ "gxsec" *
+          (v ρ "zeta" / v ρ "zism" + v ρ "G0" / v ρ "uvcreff" * Real.exp (-1.8 * v ρ "Av")) * ρ.mag s.yieldId / v ρ "mant" := by
+    simp [v, rr07PhotonRateTree, expE, call1, M, evalE, evalArgs, applyFn, numVal_4875e3, numVal_1p8]
+  rw [this]
+
+theorem eval_e2 (ρ : Env) : evalE ρ e2 = v ρ "echarge" ^ (2 : ℝ) := by
+  simp [v, e2, powE, call2, evalE, evalArgs, applyFn, numVal_2]
+
+theorem hh93_recombine_law (ρ : Env) (a : Lit) (s : SpecInfo) :
+    evalE ρ (hh93RecombineTree a s) =
+      litVal ρ a * v ρ "pi" * v ρ "rG" * v ρ "rG" * v ρ "gdens" *
+        Real.sqrt (8 * v ρ "kerg" * v ρ "Tgas" / (v ρ "pi" * v ρ "amu" * ρ.mag s.massId)) *
+        (1 + v ρ "echarge" ^ (2 : ℝ) / v ρ "rG" / v ρ "kerg" / v ρ "Tgas") *
+        (1 + Real.sqrt (2 * v ρ "echarge" ^ (2 : ℝ) / (v ρ "rG" * v ρ "kerg" * v ρ "Tgas" + 2 * v ρ "echarge" ^ (2 : ℝ)))) := by
+  unfold hh93RecombineTree
+  simp [v, sqrtE, call1, M, evalE, evalArgs, applyFn, numVal_8, numVal_2, numVal_1p0, eval_e2]
+
+/-- hopping rate of one reactant, as a number -/
+def hopRate (ρ : Env) (td : String) (s : SpecInfo) : ℝ :=
+  v ρ "freq" * Real.sqrt (ρ.mag s.ebId / ρ.mag s.massId) * Real.exp (- ρ.mag s.ebId * v ρ "hop" / v ρ td) / v ρ "unisites"
+/-- tunnelling rate of one reactant -/
+def tunnelRate (ρ : Env) (s : SpecInfo) : ℝ :=
+  v ρ "freq" * Real.sqrt (ρ.mag s.ebId / ρ.mag s.massId) *
+    Real.exp (v ρ "quan" * Real.sqrt (v ρ "hop" * ρ.mag s.massId * ρ.mag s.ebId)) / v ρ "unisites"
+def mobility (ρ : Env) (td : String) (s : SpecInfo) : ℝ :=
+  if s.tunnel then max (hopRate ρ td s) (tunnelRate ρ s) else hopRate ρ td s
+def barrier (ρ : Env) (td : String) (a : Lit) (s1 s2 : SpecInfo) : ℝ :=
+  if s1.tunnel || s2.tunnel then
+    max (Real.exp (- litVal ρ a / v ρ td))
+      (Real.exp (v ρ "quan" * Real.sqrt (ρ.mag s1.massId * ρ.mag s2.massId / (ρ.mag s1.massId + ρ.mag s2.massId) * litVal ρ a)))
+  else Real.exp (- litVal ρ a / v ρ td)
+
+theorem eval_sdiff (ρ : Env) (td : String) (s : SpecInfo) : evalE ρ (sdiffTree td s) = hopRate ρ td s := by
+  simp [v, hopRate, sdiffTree, sfreqTree, sqrtE, expE, call1, M, evalE, evalArgs, applyFn]
+theorem eval_squan (ρ : Env) (s : SpecInfo) : evalE ρ (squanTree s) = tunnelRate ρ s := by
+  simp [v, tunnelRate, squanTree, sfreqTree, sqrtE, expE, call1, M, evalE, evalArgs, applyFn]
+theorem eval_mob (ρ : Env) (td : String) (s : SpecInfo) : evalE ρ (mobTree td s) = mobility ρ td s := by
+  unfold mobTree mobility
+  by_cases h : s.tunnel = true
+  · simp [h, fmaxE, call2, evalE, evalArgs, applyFn, eval_sdiff, eval_squan]
+  · simp [h, eval_sdiff]
+theorem eval_kappa (ρ : Env) (td : String) (a : Lit) : evalE ρ (kappaTree td a) = Real.exp (- litVal ρ a / v ρ td) := by
+  simp [v, kappaTree, expE, call1, evalE, evalArgs, applyFn]
+theorem eval_kquan (ρ : Env) (a : Lit) (s1 s2 : SpecInfo) : evalE ρ (kquanTree a s1 s2) =
+    Real.exp (v ρ "quan" * Real.sqrt (ρ.mag s1.massId * ρ.mag s2.massId / (ρ.mag s1.massId + ρ.mag s2.massId) * litVal ρ a)) := by
+  simp [v, kquanTree, sqrtE, expE, call1, M, evalE, evalArgs, applyFn]
+theorem eval_barrier (ρ : Env) (td : String) (a : Lit) (s1 s2 : SpecInfo) :
+    evalE ρ (barrierTree td a s1 s2) = barrier ρ td a s1 s2 := by
+  unfold barrierTree barrier
+  by_cases h : (s1.tunnel || s2.tunnel) = true
+  · simp only [h, if_true]; simp [fmaxE, call2, evalE, evalArgs, applyFn, eval_kappa, eval_kquan]
+  · simp only [h]; simp [eval_kappa]
+theorem eval_sites2 (ρ : Env) : evalE ρ sites2Tree = (v ρ "nMono" * v ρ "densites") ^ (2 : ℝ) := by
+  simp [v, sites2Tree, powE, call2, evalE, evalArgs, applyFn, numVal_2]
+
+/-- **C11 (two-body surface reaction, HH93).**
+    `k = κ · (R₁ + R₂) · (N_mono n_sites)² / n_g · cov²`: each reactant scans the surface by thermal hopping
+    (`ν exp(−E_b·hop/T_dust) / N_sites` with its *own* binding energy and mass number), the two mobilities add, the
+    reaction succeeds with `exp(−E_a/T_dust)`; for `GH` and `GH2` hopping competes with tunnelling
+    (`ν exp(quan·sqrt(hop·A·E_b)) / N_sites`, the faster wins) and the barrier can be tunnelled through with the
+    reduced mass of the pair. -/
+theorem hh93_surface_law (ρ : Env) (td : String) (a : Lit) (s1 s2 : SpecInfo) :
+    evalE ρ (hh93SurfaceTree td a s1 s2) =
+      barrier ρ td a s1 s2 * (mobility ρ td s1 + mobility ρ td s2) *
+        (v ρ "nMono" * v ρ "densites") ^ (2 : ℝ) / v ρ "gdens" * v ρ "cov" * v ρ "cov" := by
+  simp [v, hh93SurfaceTree, eval_barrier, eval_mob, eval_sites2]
+
+/-- **C11 (reactive desorption, HH93).** the same encounter rate times the switch and the branching ratio -/
+theorem hh93_reactive_law (ρ : Env) (td : String) (a : Lit) (s1 s2 : SpecInfo) :
+    evalE ρ (hh93ReactiveTree td a s1 s2) =
+      v ρ "opt_rcd" * v ρ "branch" * evalE ρ (hh93SurfaceTree td a s1 s2) := by
+  rw [hh93_surface_law]
+  simp [v, hh93ReactiveTree, eval_barrier, eval_mob, eval_sites2]
+  ring
+
+/-- without a light reactant the law contains no tunnelling term at all -/
+theorem hh93_surface_no_tunnel (ρ : Env) (td : String) (a : Lit) (s1 s2 : SpecInfo)
+    (h1 : s1.tunnel = false) (h2 : s2.tunnel = false) :
+    evalE ρ (hh93SurfaceTree td a s1 s2) =
+      Real.exp (- litVal ρ a / v ρ td) * (hopRate ρ td s1 + hopRate ρ td s2) *
+        (v ρ "nMono" * v ρ "densites") ^ (2 : ℝ) / v ρ "gdens" * v ρ "cov" * v ρ "cov" := by
+  rw [hh93_surface_law]; simp [barrier, mobility, h1, h2]
+
+/-- the rate is symmetric in the two reactants -/
+theorem hh93_surface_symm (ρ : Env) (td : String) (a : Lit) (s1 s2 : SpecInfo) :
+    evalE ρ (hh93SurfaceTree td a s1 s2) = evalE ρ (hh93SurfaceTree td a s2 s1) := by
+  rw [hh93_surface_law, hh93_surface_law]
+  have hb : barrier ρ td a s1 s2 = barrier ρ td a s2 s1 := by
+    unfold barrier
+    rw [Bool.or_comm, mul_comm (ρ.mag s1.massId) (ρ.mag s2.massId), add_comm (ρ.mag s1.massId) (ρ.mag s2.massId)]
+  rw [hb, add_comm (mobility ρ td s1)]
+
+
 end
 end Naunet.C11
